@@ -19,8 +19,19 @@ func capDump(x any) string {
 	return b.String()
 }
 
+// deepDump is capDump without capacities and spare elements: two values have the same deepDump
+// exactly when reflect.DeepEqual holds for them (compiled regular expressions by their text).
+func deepDump(x any) string {
+	var b strings.Builder
+	capDumpValue(&b, reflect.ValueOf(x), deepOnly)
+	return b.String()
+}
+
+// depth values from deepOnly upwards mean "without capacities"
+const deepOnly = 1000
+
 func capDumpValue(b *strings.Builder, v reflect.Value, depth int) {
-	if depth > 24 {
+	if depth%deepOnly > 24 {
 		b.WriteString("<deep>")
 		return
 	}
@@ -90,12 +101,17 @@ func capDumpValue(b *strings.Builder, v reflect.Value, depth int) {
 			return
 		}
 		if v.Type().Elem().Kind() == reflect.Uint8 {
-			// byte slices: length part only (spare capacity of scratch buffers is not shared state)
-			fmt.Fprintf(b, "bytes(%d)", v.Len())
+			// byte slices: contents up to the length (spare capacity of scratch buffers is not shared state)
+			fmt.Fprintf(b, "bytes(%x)", v.Bytes())
 			return
 		}
-		fmt.Fprintf(b, "[len=%d cap=%d:", v.Len(), v.Cap())
 		full := v.Slice(0, v.Cap())
+		if depth >= deepOnly {
+			fmt.Fprintf(b, "[len=%d:", v.Len())
+			full = v
+		} else {
+			fmt.Fprintf(b, "[len=%d cap=%d:", v.Len(), v.Cap())
+		}
 		for i := 0; i < full.Len(); i++ {
 			if i == v.Len() {
 				b.WriteString(" | spare:")
